@@ -258,9 +258,13 @@ def shrink_groups(ctx, mism, max_groups=6, budget=300):
     """One shrunk representative per mismatch kind (the one from the shortest history position).
     Returns {kind: (text, replay_lines)}."""
     groups = {}
+    loose = {}
     for kind, text, path in mism:
         hid, opi = history_of(text)
         if hid is None or not path:
+            # not tied to a history (the harness or the driver itself failed, e.g. a harness assertion about the metadata
+            # layout): nothing to shrink, but it must never be dropped - the suite did not run
+            loose.setdefault(kind, (text, ["# not tied to a history: %s" % text[:2000]]))
             continue
         try:
             pos = int(opi)
@@ -282,6 +286,8 @@ def shrink_groups(ctx, mism, max_groups=6, budget=300):
         else:
             lines, t, n = r
             out[kind] = ("%s [minimal sequence: %d calls]" % (t, n), lines)
+    for kind, v in loose.items():
+        out.setdefault(kind, v)
     return out
 
 
